@@ -178,4 +178,59 @@ Proof.
   apply (dB1_support side _ x Hl0 Hl1 Hp); lia.
 Qed.
 
+
+(* ---------------------------------------------------------------------------------------------- *)
+(* derivative orders >= 2: the recursive bspline_deriv of src/core/bspline.cpp (right-continuous, plain division) *)
+Section Recursive.
+Hypothesis Hstrict : forall i j, 0 <= i -> i < j -> j < nknots -> lt (kn i) (kn j).
+Variable x : K.
+
+Lemma strict_nz a b : 0 <= a -> a < b -> b < nknots -> sub (kn b) (kn a) <> zero.
+Proof. intros. apply (lt_sub_neq F). apply Hstrict; lia. Qed.
+
+Lemma bspline_Bfun : forall n i, 0 <= i -> i + Z.of_nat n + 1 < nknots -> bspline kn n x i = Bfun kn true n i x.
+Proof.
+  induction n as [|n IH]; intros i Hi0 Hi1.
+  - reflexivity.
+  - cbn [bspline Bfun]. rewrite (IH i), (IH (i + 1)) by lia.
+    assert (N1 : sub (kn (i + Z.of_nat (S n))) (kn i) <> zero) by (apply strict_nz; lia).
+    assert (N2 : sub (kn (i + Z.of_nat (S n) + 1)) (kn (i + 1)) <> zero) by (apply strict_nz; lia).
+    rewrite (wdiv_nz F _ _ N1), (wdiv_nz F _ _ N2). field. split; assumption.
+Qed.
+
+Lemma bspline_deriv_dB : forall n i k, 0 <= i -> i + Z.of_nat n + 1 < nknots ->
+  bspline_deriv kn n x i (S k) = dBfun kn true (S k) n i x.
+Proof.
+  induction n as [|n IH]; intros i k Hi0 Hi1; [reflexivity|].
+  assert (N1 : sub (kn (i + Z.of_nat (S n))) (kn i) <> zero) by (apply strict_nz; lia).
+  assert (N2 : sub (kn (i + Z.of_nat (S n) + 1)) (kn (i + 1)) <> zero) by (apply strict_nz; lia).
+  destruct k as [|k].
+  - cbn [bspline_deriv dBfun]. rewrite (bspline_Bfun n i), (bspline_Bfun n (i + 1)) by lia.
+    rewrite (wdiv_nz F _ _ N1), (wdiv_nz F _ _ N2). field. split; assumption.
+  - change (bspline_deriv kn (S n) x i (S (S k))) with
+      (sub (div (mul (ofZ (Z.of_nat (S n))) (bspline_deriv kn n x i (S k))) (sub (kn (i + Z.of_nat (S n))) (kn i)))
+           (div (mul (ofZ (Z.of_nat (S n))) (bspline_deriv kn n x (i + 1) (S k))) (sub (kn (i + Z.of_nat (S n) + 1)) (kn (i + 1))))).
+    rewrite (IH i), (IH (i + 1)) by lia.
+    change (dBfun kn true (S (S k)) (S n) i x) with
+      (mul (ofZ (Z.of_nat (S n)))
+           (sub (wdiv (dBfun kn true (S k) n i x) (sub (kn (i + Z.of_nat (S n))) (kn i)))
+                (wdiv (dBfun kn true (S k) n (i + 1) x) (sub (kn (i + Z.of_nat (S n) + 1)) (kn (i + 1)))))).
+    rewrite (wdiv_nz F _ _ N1), (wdiv_nz F _ _ N2). field. split; assumption.
+Qed.
+End Recursive.
+
+(* local support of the iterated derivative formula *)
+Lemma dBk_support side l x : 0 <= l -> l + 1 < nknots -> in_piece kn side l x ->
+  forall k n i, 0 <= i -> i + Z.of_nat n + 1 < nknots -> (i + Z.of_nat n < l \/ l < i) -> dBfun kn side k n i x = zero.
+Proof.
+  intros Hl0 Hl1 Hp. induction k as [|k IH]; intros n i Hi0 Hi1 Hout.
+  - cbn [dBfun]. apply (Bfun_support F kn nknots Hmono side l x Hl0 Hl1 Hp); assumption.
+  - destruct n as [|n1]; [reflexivity|].
+    change (dBfun kn side (S k) (S n1) i x) with
+      (mul (ofZ (Z.of_nat (S n1)))
+           (sub (wdiv (dBfun kn side k n1 i x) (sub (kn (i + Z.of_nat (S n1))) (kn i)))
+                (wdiv (dBfun kn side k n1 (i + 1) x) (sub (kn (i + Z.of_nat (S n1) + 1)) (kn (i + 1)))))).
+    rewrite (IH n1 i), (IH n1 (i + 1)) by lia. rewrite !wdiv_zero_num. ring.
+Qed.
+
 End OneDim.
